@@ -328,8 +328,32 @@ func c09Goast(c *fw.Ctx, label string, fset *token.FileSet, af *ast.File, info *
 			dupName = true
 		}
 	}
-	d := decorator.NewDecoratorWithImports(fset, "ex.com/self-goast", goast.WithResolver(simple.New(full)))
+	gres := goast.WithResolver(simple.New(full))
+	d := decorator.NewDecoratorWithImports(fset, "ex.com/self-goast", gres)
 	df, err := d.DecorateFile(af)
+	if (hasDot || dupName) && err != nil {
+		// the refusal is a property of the file, not of the first query: a second decorator that
+		// shares the resolver, and direct queries for every qualified identifier, must be refused too
+		if _, err2 := decorator.NewDecoratorWithImports(fset, "ex.com/self-goast", gres).DecorateFile(af); err2 == nil {
+			c.Violate("goast-guesses", "goast-guesses:second-decorator", fmt.Sprintf("%s: the first decoration was refused (%v) but a second decorator sharing the resolver decorated the same file without an error", label, err), src)
+		}
+		asked, answered := 0, 0
+		ast.Inspect(af, func(n ast.Node) bool {
+			if se, ok := n.(*ast.SelectorExpr); ok {
+				if x, ok := se.X.(*ast.Ident); ok && x.Obj == nil {
+					asked++
+					if p, e := gres.ResolveIdent(af, se, "Sel", se.Sel); e == nil && p != "" {
+						answered++
+					}
+				}
+			}
+			return true
+		})
+		c.Count("goast_repeated_queries_on_refused_files", int64(asked))
+		if answered > 0 {
+			c.Violate("goast-guesses", "goast-guesses:repeated-query", fmt.Sprintf("%s: after refusing the file, the resolver answered %d of %d further queries with a path and no error", label, answered, asked), src)
+		}
+	}
 	if hasDot || dupName {
 		anySelector := false
 		ast.Inspect(af, func(n ast.Node) bool {
